@@ -34,6 +34,8 @@ func init() {
 	wrap("C15", c15BuilderResetComplete)
 	wrap("C08", c08GenerationalOrder)
 	wrap("C08", c08WriteOfferedToKeeper)
+	wrap("C20", c20CasTokenForwarded)
+	Registry["C20"].Patterns = append(Registry["C20"].Patterns, "./libraries/doltcore/doltdb")
 	Registry["C24"].Patterns = append(Registry["C24"].Patterns, "./libraries/doltcore/env/actions")
 }
 
@@ -523,5 +525,55 @@ func c08WriteOfferedToKeeper(k *eng.Check) {
 	}
 	if n < 1 {
 		k.Unknown("write-offered-to-keeper", "store/nbs", "functions that put chunks into the memtable", "none found")
+	}
+}
+
+// c20CasTokenForwarded: the layers between a session and store/datas hand the caller's compare-and-set token (the
+// expected previous working-set hash, a hash.Hash parameter) down unchanged and exactly once: a layer that re-reads
+// the current value and retries with it turns the conditional write into last-writer-wins.
+func c20CasTokenForwarded(k *eng.Check) {
+	c := k.C
+	layers := []string{
+		"(*libraries/doltcore/doltdb.DoltDB).UpdateWorkingSet",
+		"(*libraries/doltcore/doltdb.DoltDB).CommitWithWorkingSet",
+		"(libraries/doltcore/doltdb.hooksDatabase).UpdateWorkingSet",
+		"(libraries/doltcore/doltdb.hooksDatabase).CommitWithWorkingSet",
+	}
+	isLower := func(ci ssa.CallInstruction) bool {
+		n := eng.CalleeName(ci)
+		return strings.HasSuffix(n, ".UpdateWorkingSet") || strings.HasSuffix(n, ".CommitWithWorkingSet")
+	}
+	for _, ln := range layers {
+		fn := k.Fn(ln)
+		if fn == nil {
+			continue
+		}
+		calls := eng.Calls(fn, isLower, false)
+		if len(calls) < 1 {
+			k.Unknown("cas-token-forwarded", eng.Name(fn), "the lower-level conditional write", "no UpdateWorkingSet/CommitWithWorkingSet call found")
+			continue
+		}
+		n := 0
+		for _, call := range calls {
+			inLoop := false
+			for _, l := range eng.Loops(fn) {
+				if l.Body[call.(ssa.Instruction).Block()] {
+					inLoop = true
+				}
+			}
+			k.Require("cas-token-forwarded", eng.Name(fn)+"#not-retried", "the conditional write is not inside a retry loop of this layer", !inLoop, c.InstrPos(call.(ssa.Instruction)), "the conditional write sits in a loop")
+			for _, a := range call.Common().Args {
+				if eng.ShortType(a.Type()) != "store/hash.Hash" {
+					continue
+				}
+				n++
+				p, isP := eng.Origin(a).(*ssa.Parameter)
+				ok := isP && eng.ShortType(p.Type()) == "store/hash.Hash"
+				k.Require("cas-token-forwarded", eng.Name(fn)+"#token", "the expected previous hash handed down is this layer's own hash parameter", ok, c.InstrPos(call.(ssa.Instruction)), "the token is "+eng.Desc(a, 4))
+			}
+		}
+		if n < 1 {
+			k.Unknown("cas-token-forwarded", eng.Name(fn)+"#token", "a hash.Hash argument of the conditional write", "none found")
+		}
 	}
 }
